@@ -40,7 +40,27 @@ func sortUniq(set map[string]bool) [][]byte {
 	return out
 }
 
+// wordBoundarySizes: key counts at and around multiples of the machine word
+// and of the rank-index strides (64, 128): bitmaps without a partial last
+// word, off-by-one errors in word counts.
+var wordBoundarySizes = []int{63, 64, 65, 127, 128, 129, 191, 192, 193, 255, 256, 257, 319, 320, 383, 384, 511, 512, 513, 640, 1023, 1024, 1025, 2047, 2048, 4095, 4096, 4097, 8192, 65535, 65536, 65537}
+
 func pickSize(r *Rng, lim GenLimits) int {
+	switch r.Intn(10) {
+	case 0:
+		for tries := 0; tries < 20; tries++ {
+			if n := wordBoundarySizes[r.Intn(len(wordBoundarySizes))]; n <= lim.MaxKeys {
+				return n
+			}
+		}
+	case 1:
+		// any count: dense coverage of small sizes over many runs
+		top := 1100
+		if lim.MaxKeys < top {
+			top = lim.MaxKeys
+		}
+		return r.Range(1, top)
+	}
 	sizes := []int{0, 1, 2, 3, 5, 8, 13, 30, 70, 150, 300, 700, 1500, 3000, 8000, 20000, 60000, 100000}
 	w := []int{2, 3, 4, 6, 8, 8, 8, 10, 10, 10, 8, 6, 5, 3, 2, 1, 1, 1}
 	for {
